@@ -1421,6 +1421,106 @@ fn gen_adapter(r: &mut Prng) -> String {
     format!("t=adapter ops={}", ops.join(";"))
 }
 
+// ------------------------------------------------------------------ adapter: file-transfer methods
+//
+// `FileVolatileSlice`'s `Bytes<usize>` implementation hands the four volatile file-transfer
+// methods to vm-memory's `VolatileSlice`.  "Behaves as a plain view" for them = same result, same
+// bytes moved, same calls on the file as the `VolatileSlice` over the same memory (reference =
+// vm-memory itself; no model involved).  Sources/sinks move at most `chunk` bytes per call.
+
+struct ChunkIo {
+    chunk: usize,
+    data: Vec<u8>,
+    pos: usize,
+    got: Vec<u8>,
+    calls: usize,
+    fail_at: usize,
+}
+
+impl vm_memory::ReadVolatile for ChunkIo {
+    fn read_volatile<B: BitmapSlice>(&mut self, buf: &mut vm_memory::VolatileSlice<B>) -> Result<usize, vm_memory::VolatileMemoryError> {
+        self.calls += 1;
+        if self.calls == self.fail_at {
+            return Err(vm_memory::VolatileMemoryError::IOError(io::Error::from_raw_os_error(libc::EIO)));
+        }
+        let n = self.chunk.min(buf.len()).min(self.data.len() - self.pos);
+        buf.copy_from(&self.data[self.pos..self.pos + n]);
+        self.pos += n;
+        Ok(n)
+    }
+}
+
+impl vm_memory::WriteVolatile for ChunkIo {
+    fn write_volatile<B: BitmapSlice>(&mut self, buf: &vm_memory::VolatileSlice<B>) -> Result<usize, vm_memory::VolatileMemoryError> {
+        self.calls += 1;
+        if self.calls == self.fail_at {
+            return Err(vm_memory::VolatileMemoryError::IOError(io::Error::from_raw_os_error(libc::EIO)));
+        }
+        let n = self.chunk.min(buf.len());
+        let mut tmp = vec![0u8; n];
+        buf.copy_to(&mut tmp[..]);
+        self.got.extend_from_slice(&tmp);
+        Ok(n)
+    }
+}
+
+fn adapter_delegation_probe(r: &mut Prng, out: &mut Out) {
+    let len = *r.pick(&[0usize, 1, 8, 16, 33, 64]);
+    let count = match r.below(5) { 0 => 0, 1 => len, 2 => len + 1, _ => r.below(len as u64 + 3) as usize };
+    let addr = match r.below(5) { 0 => 0, 1 => len, 2 => len.saturating_sub(1), _ => r.below(len as u64 + 2) as usize };
+    let chunk = *r.pick(&[1usize, 3, 7, 64, 1000]);
+    let fail_at = if r.chance(1, 5) { r.range(1, 4) as usize } else { 0 };
+    let method = *r.pick(&["read_volatile_from", "read_exact_volatile_from", "write_volatile_to", "write_all_volatile_to"]);
+    let avail = if r.chance(1, 4) { r.below(count as u64 + 1) as usize } else { count + 8 };
+    adapter_delegation_probe_with(method, len, addr, count, chunk, fail_at, avail, out);
+}
+
+#[allow(clippy::too_many_arguments)]
+fn adapter_delegation_probe_with(method: &str, len: usize, addr: usize, count: usize, chunk: usize, fail_at: usize, avail: usize, out: &mut Out) {
+    let line = format!("t=adapter-probe m={} len={} addr={} count={} chunk={} fail_at={} avail={}", method, len, addr, count, chunk, fail_at, avail);
+    let run = |adapter: bool| -> (String, Vec<u8>, Vec<u8>, usize) {
+        let mut mem: Vec<u8> = (0..len).map(wfill).collect();
+        let mut io_ = ChunkIo { chunk, data: pat_bytes(77, 0, avail), pos: 0, got: vec![], calls: 0, fail_at };
+        let show = |e: vm_memory::VolatileMemoryError| format!("err:{}", verr(&e));
+        let res = if adapter {
+            let sl = unsafe { FileVolatileSlice::from_raw_ptr(mem.as_mut_ptr(), len) };
+            match method {
+                "read_volatile_from" => sl.read_volatile_from(addr, &mut io_, count).map(|n| format!("ok:{}", n)).unwrap_or_else(show),
+                "read_exact_volatile_from" => sl.read_exact_volatile_from(addr, &mut io_, count).map(|_| "ok".to_string()).unwrap_or_else(show),
+                "write_volatile_to" => sl.write_volatile_to(addr, &mut io_, count).map(|n| format!("ok:{}", n)).unwrap_or_else(show),
+                _ => sl.write_all_volatile_to(addr, &mut io_, count).map(|_| "ok".to_string()).unwrap_or_else(show),
+            }
+        } else {
+            let sl = unsafe { vm_memory::VolatileSlice::new(mem.as_mut_ptr(), len) };
+            match method {
+                "read_volatile_from" => sl.read_volatile_from(addr, &mut io_, count).map(|n| format!("ok:{}", n)).unwrap_or_else(show),
+                "read_exact_volatile_from" => sl.read_exact_volatile_from(addr, &mut io_, count).map(|_| "ok".to_string()).unwrap_or_else(show),
+                "write_volatile_to" => sl.write_volatile_to(addr, &mut io_, count).map(|n| format!("ok:{}", n)).unwrap_or_else(show),
+                _ => sl.write_all_volatile_to(addr, &mut io_, count).map(|_| "ok".to_string()).unwrap_or_else(show),
+            }
+        };
+        (res, mem, io_.got, io_.calls)
+    };
+    let a = catch_unwind(AssertUnwindSafe(|| run(true)));
+    let b = catch_unwind(AssertUnwindSafe(|| run(false)));
+    out.stat(&format!("adapter-probe:{}", method));
+    let same = match (&a, &b) {
+        (Ok(x), Ok(y)) => x == y,
+        (Err(_), Err(_)) => true,
+        _ => false,
+    };
+    if !same {
+        let d = |x: &std::thread::Result<(String, Vec<u8>, Vec<u8>, usize)>| match x {
+            Ok((r, _, g, c)) => format!("{} ({} bytes to the file, {} calls)", r, g.len(), c),
+            Err(_) => "panic".to_string(),
+        };
+        let v = serde_json::json!({"prop": "C04", "key": format!("C04:adapter:delegation:{}", method), "case": line,
+            "what": format!("FileVolatileSlice: {} | VolatileSlice over the same bytes: {}", d(&a), d(&b))});
+        writeln!(out.oracle, "{}", v).unwrap();
+        out.n_oracle += 1;
+    }
+}
+
 fn write_hits(out: &mut Out, line: &str, hits: &[(String, String, String)]) {
     for (p, k, w) in hits {
         let v = serde_json::json!({"prop": p, "key": k, "case": line, "what": w});
@@ -1435,6 +1535,12 @@ fn parse_kv(line: &str) -> std::collections::BTreeMap<String, String> {
 
 fn replay_line(line: &str, sock: (RawFd, RawFd), out: &mut Out) {
     let kv = parse_kv(line);
+    if kv.get("t").map(|s| s.as_str()) == Some("adapter-probe") {
+        let n = |k: &str| kv.get(k).and_then(|v| v.parse::<usize>().ok()).unwrap_or(0);
+        let m = kv.get("m").cloned().unwrap_or_default();
+        adapter_delegation_probe_with(&m, n("len"), n("addr"), n("count"), n("chunk"), n("fail_at"), n("avail"), out);
+        return;
+    }
     if kv.get("t").map(|s| s.as_str()) == Some("adapter") {
         let mut hits = vec![];
         let o: Vec<String> = kv.get("ops").cloned().unwrap_or_default().split(';').filter(|s| !s.is_empty()).map(|s| adapter_op(s, &mut hits)).collect();
@@ -1479,6 +1585,9 @@ fn main() {
                 out.stat(&format!("op:{}", &o[..2]));
             }
             replay_line(&line, sock, &mut out);
+            for _ in 0..4 {
+                adapter_delegation_probe(&mut r, &mut out);
+            }
             continue;
         }
         let mut h = gen_hdr(&mut r, &prop);
